@@ -2,6 +2,32 @@
 open Model
 open X_fops
 
+
+(* ---- grid files: tokens as words  N:<float> I:<int> # NL K:<keyword> { } B ---- *)
+let key_names = [ (KGridParams, "grid_parameters"); (KNColvars, "n_colvars"); (KLower, "lower_boundaries");
+                  (KUpper, "upper_boundaries"); (KWidths, "widths"); (KSizes, "sizes") ]
+let tok_str (t : float tok) : string = match t with
+  | TNum x -> "N:" ^ hex x | TInt n -> "I:" ^ string_of_int (int_of_z n) | THash -> "#" | TNl -> "NL"
+  | TKey k -> "K:" ^ List.assoc k key_names | TOpen -> "{" | TClose -> "}" | TBad -> "B"
+let tok_of (s : string) : float tok =
+  if s = "#" then THash else if s = "NL" then TNl else if s = "{" then TOpen else if s = "}" then TClose
+  else if s = "B" then TBad
+  else if String.length s > 2 && String.sub s 0 2 = "N:" then TNum (fl (String.sub s 2 (String.length s - 2)))
+  else if String.length s > 2 && String.sub s 0 2 = "I:" then TInt (z_of_int (int_of_string (String.sub s 2 (String.length s - 2))))
+  else if String.length s > 2 && String.sub s 0 2 = "K:" then
+    (let n = String.sub s 2 (String.length s - 2) in
+     match List.filter (fun (_, m) -> m = n) key_names with (k, _) :: _ -> TKey k | [] -> TBad)
+  else TBad
+let rec nat_of_int n = if n <= 0 then O else S (nat_of_int (n - 1))
+let print_toks l = Printf.printf "T %s\n" (String.concat " " (List.map tok_str l))
+let print_grid (g : float grid) =
+  let fl_list tag l = Printf.sprintf " %s %d%s" tag (List.length l) (String.concat "" (List.map (fun x -> " " ^ hex x) l)) in
+  Printf.printf "G %d %d%s%s%s%s P %d%s%s\n" (int_of_z g.gr_mult) (List.length g.gr_nx)
+    (String.concat "" (List.map (fun z -> " " ^ string_of_int (int_of_z z)) g.gr_nx))
+    (fl_list "L" g.gr_lower) (fl_list "U" g.gr_upper) (fl_list "W" g.gr_width)
+    (List.length g.gr_per) (String.concat "" (List.map (fun b -> if b then " 1" else " 0") g.gr_per))
+    (fl_list "D" g.gr_data)
+
 let () =
   try
     while true do
@@ -68,6 +94,60 @@ let () =
                { hi_rel = z_of_int rel; hi_cont = cont; hi_vals = vals }) in
            let data = hist_run fops vm c steps in
            Printf.printf "%s\n" (String.concat " " (List.map hex data))
+         | "WRITE" | "READ" ->
+           let fmt = next () in
+           let buf = if w.(0) = "WRITE" && (fmt = "raw" || fmt = "rawg") then ni () else 3 in
+           let add = if w.(0) = "READ" && fmt = "multicol" then ni () <> 0 else false in
+           let mult_i = if fmt = "file" then ni () else 0 in
+           let toks_after () =
+             (* tokens after the word TOKS *)
+             let rec find i = if i >= Array.length w then i else if w.(i) = "TOKS" then i + 1 else find (i + 1) in
+             let i0 = find !p in
+             List.map tok_of (Array.to_list (Array.sub w i0 (Array.length w - i0))) in
+           let out r = (match r with Some (g, _) -> print_grid g | None -> Printf.printf "ERR\n") in
+           if fmt = "file" then out (grid_from_multicol fops (z_of_int mult_i) (toks_after ()))
+           else if fmt = "state" then begin
+             let mult = ni () in let nd = ni () in
+             let cvd = List.init nd (fun _ -> let l = nf () in let u = nf () in let wd = nf () in let pp = nf () in (l, u, wd, pp)) in
+             let gd = List.init nd (fun _ -> let l = nf () in let u = nf () in let wd = nf () in (l, u, wd)) in
+             let n = ni () in let data = nflist n in
+             let cvs = List.map (fun (_, _, wd, pp) -> { cv_period = pp; cv_width = wd }) cvd in
+             let gl = List.map (fun (l, _, _) -> l) gd and gu = List.map (fun (_, u, _) -> u) gd
+             and gw = List.map (fun (_, _, x) -> x) gd in
+             (* the grid as init_from_boundaries + setup leave it *)
+             let ib = init_bounds fops cvs gl gu gw in
+             let nx = List.map (fun ((n, _), _) -> n) ib in
+             let nt = int_of_z (ntot (z_of_int mult) nx) in
+             let data = List.init nt (fun k -> if k < List.length data then List.nth data k else 0.0) in
+             let g = { gr_mult = z_of_int mult; gr_nx = nx; gr_lower = gl; gr_upper = List.map (fun ((_, u), _) -> u) ib;
+                       gr_width = gw; gr_per = List.map snd ib; gr_data = data } in
+             if !p < Array.length w && w.(!p) = "GRID" then print_grid g
+             else if w.(0) = "WRITE" then print_toks (write_restart g)
+             else out (read_restart fops cvs g (toks_after ()))
+           end else begin
+             let mult = ni () in let nd = ni () in
+             let nx = nzlist nd in let lower = nflist nd in let upper = nflist nd in let width = nflist nd in
+             let per = List.init nd (fun _ -> ni () <> 0) in
+             let n = ni () in let data = nflist n in
+             let g = { gr_mult = z_of_int mult; gr_nx = nx; gr_lower = lower; gr_upper = upper; gr_width = width;
+                       gr_per = per; gr_data = data } in
+             if w.(0) = "WRITE" then begin
+               match fmt with
+               | "multicol" -> print_toks (write_multicol fops g)
+               | "raw" | "rawg" -> print_toks (write_raw (nat_of_int buf) g)
+               | "dx" ->
+                 Printf.printf "DX counts%s origin%s delta%s\n"
+                   (String.concat "" (List.map (fun z -> " " ^ string_of_int (int_of_z z)) nx))
+                   (String.concat "" (List.map (fun x -> " " ^ hex x) (dx_origin fops lower width)))
+                   (String.concat "" (List.map (fun x -> " " ^ hex x) (List.concat (dx_delta fops width))))
+               | _ -> Printf.printf "?\n"
+             end else begin
+               match fmt with
+               | "multicol" -> out (read_multicol fops add g (toks_after ()))
+               | "raw" -> out (read_raw fops g (toks_after ()))
+               | _ -> Printf.printf "?\n"
+             end
+           end
          | _ -> Printf.printf "?\n")
       end
     done
